@@ -493,6 +493,8 @@ pub struct SimProvider {
     pub cur_val: Arc<AtomicUsize>,
     ready_polls: u32,
     ready_for_val: usize,
+    /// poll_ready has returned Ready(Ok) since the last call (the tower contract)
+    ready_ok: bool,
 }
 
 impl SimProvider {
@@ -503,6 +505,7 @@ impl SimProvider {
             cur_val,
             ready_polls: 0,
             ready_for_val: usize::MAX,
+            ready_ok: false,
         }
     }
 }
@@ -566,6 +569,7 @@ impl tower::Service<GetSigningKeyRequest> for SimProvider {
         sh.push(self.task, val, EvKind::PollReady {
             result: "ready",
         });
+        self.ready_ok = true;
         Poll::Ready(Ok(()))
     }
 
@@ -586,6 +590,10 @@ impl tower::Service<GetSigningKeyRequest> for SimProvider {
             query,
         });
         let sc = sh.script(val);
+        // like many real tower services (buffers, pools, limiters) this one does not work when it
+        // is called without having been driven to readiness first
+        let unready = !self.ready_ok;
+        self.ready_ok = false;
         ProvFuture {
             shared: self.shared.clone(),
             task: self.task,
@@ -594,6 +602,7 @@ impl tower::Service<GetSigningKeyRequest> for SimProvider {
             polls: 0,
             script: sc,
             resolved: false,
+            unready,
         }
     }
 }
@@ -606,6 +615,7 @@ pub struct ProvFuture {
     polls: u32,
     script: ProvScript,
     resolved: bool,
+    unready: bool,
 }
 
 impl Future for ProvFuture {
@@ -630,6 +640,12 @@ impl Future for ProvFuture {
             sh = this.shared.lock().unwrap();
         }
         let req = this.req.take().expect("provider future polled after completion");
+        if this.unready {
+            sh.push(this.task, this.val, EvKind::FutPoll {
+                result: "err",
+            });
+            return Poll::Ready(Err(Box::new(HarnessError(format!("{} service called before poll_ready returned Ready", PROVIDER_MSG_PREFIX)))));
+        }
         let looked = keystore_lookup(&sh.accounts, req.access_key(), req.session_token(), &this.script.answer)
             .map(|(a, s)| (a.clone(), s.to_string()));
         let level = sh.cache_level;
